@@ -172,7 +172,15 @@ def build_models(I):
         hit = ctx.trig_table.get(k)
         if hit is not None:
             return hit
+        # the same angle written differently (e.g. a + (i+1)*d - ... ): reuse the symbols when the difference
+        # simplifies to 0, so that spec and code talk about the same sin/cos
+        for k2, arg in ctx.trig_args.items():
+            diff = z3.simplify(arg - zx, som=True)
+            if z3.is_rational_value(diff) and diff.numerator_as_long() == 0:
+                ctx.trig_table[k] = ctx.trig_table[k2]
+                return ctx.trig_table[k2]
         n = len(ctx.trig_table)
+        n = len(ctx.trig_args)
         s = z3.Real(f"sin!{n}")
         c = z3.Real(f"cos!{n}")
         ctx.trig_table[k] = (SReal(s), SReal(c))
